@@ -303,6 +303,10 @@ func (e *Engine) load(st *State, a *Addr) Val {
 			hn, hs := e.ptrHeapName(bt)
 			base = sel(e.heapIn(st, hn, hs), a.Ref)
 		}
+		// the pointer may be the address of a struct field whose address was taken in this function
+		for _, c := range e.interiorCands(bt) {
+			base = ite("(= (pkind "+a.Ref+") "+fmt.Sprint(c.id)+")", sel(e.heapIn(st, c.heap, c.sort), "("+c.owner+" "+a.Ref+")"), base)
+		}
 	}
 	cur, _ := e.applyPath(base, bt, a.Path)
 	return Val{T: cur, S: s, GoT: t}
@@ -376,6 +380,36 @@ func (e *Engine) storeTo(st *State, a *Addr, v Val) {
 		}
 		e.setHeapIn(st, a.Heap, a.HSort, nv)
 	case aPtr:
+		cands := e.interiorCands(bt)
+		if len(cands) > 0 {
+			// conditional store: the pointer may address a struct field
+			full := v.T
+			if len(a.Path) > 0 {
+				cur := e.load(st, &Addr{Kind: aPtr, Ref: a.Ref, ElemT: bt})
+				full = e.updatePath(cur.T, bt, a.Path, v.T)
+			}
+			full = e.sc.define("sv", e.sortOf(bt), full)
+			isPlain := "true"
+			for _, c := range cands {
+				cond := "(= (pkind " + a.Ref + ") " + fmt.Sprint(c.id) + ")"
+				h := e.heapIn(st, c.heap, c.sort)
+				e.setHeapIn(st, c.heap, c.sort, ite(cond, store(h, "("+c.owner+" "+a.Ref+")", full), h))
+				isPlain = and(isPlain, not(cond))
+			}
+			if u, ok := isStruct(bt); ok {
+				srt := e.structSort(bt, u)
+				for i := 0; i < u.NumFields(); i++ {
+					hn, hs := e.fieldHeapName(bt, u, i)
+					h := e.heapIn(st, hn, hs)
+					e.setHeapIn(st, hn, hs, ite(isPlain, store(h, a.Ref, "("+e.fieldSel(srt, u, i)+" "+full+")"), h))
+				}
+			} else {
+				hn, hs := e.ptrHeapName(bt)
+				h := e.heapIn(st, hn, hs)
+				e.setHeapIn(st, hn, hs, ite(isPlain, store(h, a.Ref, full), h))
+			}
+			return
+		}
 		if u, ok := isStruct(bt); ok {
 			nv := v.T
 			if len(a.Path) > 0 {
@@ -413,7 +447,10 @@ func (e *Engine) ptrTerm(v Val) string {
 		e.sc.declareFun("elemptr", []string{"Int", "Int"}, "Int")
 		return "(elemptr " + a.Ref + " " + a.Idx + ")"
 	case aField:
-		e.note("interior pointer to struct field used as data (abstracted)")
+		if len(a.Path) == 0 {
+			return e.interiorPtr(a)
+		}
+		e.note("interior pointer into a nested struct field used as data (abstracted)")
 		f := "fieldptr_" + sanitize(a.Heap)
 		e.sc.declareFun(f, []string{"Int"}, "Int")
 		return "(" + f + " " + a.Ref + ")"
@@ -1032,4 +1069,41 @@ func (e *Engine) convertStruct(v Val, from, to types.Type) Val {
 		return Val{T: "(mk_" + ts + " 0)", S: ts, GoT: to}
 	}
 	return Val{T: "(mk_" + ts + " " + strings.Join(parts, " ") + ")", S: ts, GoT: to}
+}
+
+type interiorCand struct {
+	heap, sort, owner string
+	id                int
+	fieldT            types.Type
+}
+
+// interiorPtr returns the pointer value of the address of a struct field (p.f): an injective function of p,
+// tagged (pkind) with the field heap it points into.
+func (e *Engine) interiorPtr(a *Addr) string {
+	if e.interior == nil {
+		e.interior = map[string]*interiorCand{}
+	}
+	c, ok := e.interior[a.Heap]
+	f := "fieldptr_" + sanitize(a.Heap)
+	if !ok {
+		c = &interiorCand{heap: a.Heap, sort: a.HSort, owner: "owner_" + sanitize(a.Heap), id: len(e.interior) + 1, fieldT: a.ElemT}
+		e.interior[a.Heap] = c
+		e.sc.declareFun(f, []string{"Int"}, "Int")
+		e.sc.declareFun(c.owner, []string{"Int"}, "Int")
+		e.sc.declareFun("pkind", []string{"Int"}, "Int")
+		e.sc.assert(fmt.Sprintf("(forall ((r Int)) (! (and (= (%s (%s r)) r) (= (pkind (%s r)) %d) (not (= (%s r) 0))) :pattern ((%s r))))", c.owner, f, f, c.id, f, f))
+		e.note("address of struct field " + a.Heap + " taken: dereferences of pointers of that type consider it")
+	}
+	return "(" + f + " " + a.Ref + ")"
+}
+
+func (e *Engine) interiorCands(t types.Type) []*interiorCand {
+	var out []*interiorCand
+	for _, n := range sortedKeys(e.interior) {
+		c := e.interior[n]
+		if types.Identical(c.fieldT, t) {
+			out = append(out, c)
+		}
+	}
+	return out
 }
